@@ -2,11 +2,15 @@
 //  (a) kind "gdstk": a library is saved by gdstk (every option set; CBLOCKs inflated and spliced by the harness);
 //      the extracted spec_oas_decode decodes the bytes (S line), the harness prints the dump of the library that was
 //      saved (I line).  The END record, table offsets and standard properties are checked by the harness alone (P line).
+//  (c) kind "detect": the static shape detection of polygon.cpp (is_rectangle, is_trapezoid) on 3 / 4 integer points
+//      against the extracted Gallina model OasisDetect.v (M line); payload "n x0 y0 x1 y1 ...".
 //  (b) kind "spec": a specification-level random OASIS encoder (oas_encoder.hpp) emits a file; gdstk's read_oas loads
 //      it (I line = dump of the loaded library), spec_oas_decode decodes the same records (S line), and the encoder's
 //      own expectation is compared with what gdstk loaded (P line).
 // Each case runs in a forked child; the child reports through a pipe.
 #include <fcntl.h>
+#include <gdstk/gdstk.hpp>
+#include "polygon.cpp"  // static is_rectangle / is_trapezoid (kind "detect"); listed in include_cpp
 #include "oas_layout.hpp"
 #include "oas_scan.hpp"
 #include "oas_encoder.hpp"
@@ -346,7 +350,17 @@ static void child_spec(FILE* o, uint64_t eseed) {
     // encoder's own expectation
     std::string want = e.expected.joined() + " ;; UNIT " + hex_dbl(e.unit_real);
     bool okec = ec == ErrorCode::NoError || (ec == ErrorCode::MissingReference && e.has_missing_refs);
-    if (!circle_fail.empty()) fprintf(o, "P\tFAIL oas-spec-read %s\n", circle_fail.c_str());
+    // a file with a correct signature must validate (oas_validate leaks its FILE*: fine inside the child)
+    bool valid_ok = true;
+    {
+        uint32_t sig = 0;
+        ErrorCode vec = ErrorCode::NoError;
+        bool okv = oas_validate(f.c_str(), &sig, &vec);
+        if (!okv) valid_ok = false;
+        if (e.validation == 0 && vec != ErrorCode::ChecksumError) valid_ok = false;
+    }
+    if (!valid_ok) fprintf(o, "P\tFAIL oas-spec-validate oas_validate rejects a file whose END record carries the right signature (scheme %u)\n", e.validation);
+    else if (!circle_fail.empty()) fprintf(o, "P\tFAIL oas-spec-read %s\n", circle_fail.c_str());
     else if (!okec) fprintf(o, "P\tFAIL oas-spec-read read_oas error code %d\n", (int)ec);
     else if (fabs(lib.precision * e.unit_real / 1e-6 - 1) > 1e-12) fprintf(o, "P\tFAIL oas-spec-read precision %s\n", hex_dbl(lib.precision).c_str());
     else if (want != I) {
@@ -396,8 +410,47 @@ static void relay(Out& out, const std::string& res, const std::string& status, c
 // case payloads: "gdstk": "<layout-seed> <flags hex> <level> <tolgrid> <hex bytes>", "spec": "<encoder-seed> <hex bytes>";
 // the byte string is what the driver decodes; it is regenerated from the leading parameters (a replay or a corpus
 // entry may leave it out)
+static void run_detect(Out& out, const std::string& payload) {
+    std::string id = out.add("detect", payload);
+    std::vector<int64_t> v;
+    {
+        const char* p = payload.c_str();
+        while (*p) {
+            while (*p == ' ') p++;
+            if (!*p) break;
+            bool neg = *p == '-';
+            char* end;
+            uint64_t m = strtoull(p + (neg ? 1 : 0), &end, 16);
+            v.push_back(neg ? -(int64_t)m : (int64_t)m);
+            p = end;
+        }
+    }
+    Array<IntVec2> pts = {};
+    for (size_t i = 1; i + 1 < v.size(); i += 2) pts.append(IntVec2{v[i], v[i + 1]});
+    std::string res;
+    IntVec2 corner, size;
+    if (is_rectangle(pts, corner, size)) res = "R " + hex_i64(corner.x) + " " + hex_i64(corner.y) + " " + hex_i64(size.x) + " " + hex_i64(size.y);
+    else res = "R-";
+    uint8_t type = 0;
+    int64_t da = 0, db = 0;
+    if (is_trapezoid(pts, type, corner, size, da, db)) {
+        res += " ; T " + std::to_string((unsigned)type) + " " + hex_i64(corner.x) + " " + hex_i64(corner.y) + " " + hex_i64(size.x) + " " + hex_i64(size.y);
+        if (type > 25) res += " " + hex_i64(da) + " " + hex_i64(db);
+        out.count("detect:type" + std::to_string((unsigned)type));
+    } else {
+        res += " ; T-";
+        out.count("detect:none");
+    }
+    pts.clear();
+    out.I(id, res);
+}
+
 static void run_case(Out& out, const std::string& kind, const std::string& payload) {
     std::string status;
+    if (kind == "detect") {
+        run_detect(out, payload);
+        return;
+    }
     if (kind == "gdstk") {
         unsigned long long ls = 0;
         unsigned fl = 0, lv = 0;
@@ -452,6 +505,37 @@ int main(int argc, char** argv) {
             snprintf(buf, sizeof buf, "%llu %x %u %lld", (unsigned long long)ls, flags, level, tol);
             run_case(out, "gdstk", buf);
         }
+    }
+    // (c) shape detection: small coordinate ranges so that the equalities the branches test for do occur
+    long ndet = thorough ? 400000 : 20000;
+    for (long i = 0; i < ndet; i++) {
+        std::vector<P2> p;
+        int n = g.chance(35) ? 3 : 4;
+        if (g.chance(30)) {
+            int type = n == 3 ? 16 + (int)g.below(8) : (int)(g.chance(20) ? 24 + g.below(2) : g.below(16));
+            int64_t a = g.range(1, 9), b = g.range(1, 9), w, h;
+            if (type <= 3) { h = a; w = a + b; } else if (type <= 5) { h = a; w = 2 * a + b; } else if (type <= 7) { h = a; w = a + b; }
+            else if (type <= 11) { w = a; h = a + b; } else if (type <= 13) { w = a; h = 2 * a + b; } else if (type <= 15) { w = a; h = a + b; }
+            else { w = a; h = b; }
+            if (g.chance(15)) w = h;  // degenerate proportions
+            p = ctrapezoid_vertices(type, w, h);
+            int64_t ox = g.range(-5, 5), oy = g.range(-5, 5);
+            for (auto& q : p) { q.first += ox; q.second += oy; }
+            size_t s = g.below(p.size());
+            std::rotate(p.begin(), p.begin() + s, p.end());
+            if (g.coin()) std::reverse(p.begin(), p.end());
+        } else {
+            int64_t span = g.chance(50) ? 3 : 7;
+            for (int k = 0; k < n; k++) p.push_back(P2(g.range(-span, span), g.range(-span, span)));
+            if (g.chance(40) && n == 4) {  // force two parallel axis-aligned sides
+                if (g.coin()) { p[1].first = p[0].first; p[3].first = p[2].first; }
+                else { p[1].second = p[0].second; p[3].second = p[2].second; }
+                if (g.coin()) std::rotate(p.begin(), p.begin() + 1, p.end());
+            }
+        }
+        std::string pl = hex_u64(p.size());
+        for (auto& q : p) pl += " " + hex_i64(q.first) + " " + hex_i64(q.second);
+        run_case(out, "detect", pl);
     }
     long nspec = thorough ? 40000 : 1500;
     for (long i = 0; i < nspec; i++) {
